@@ -345,11 +345,13 @@ func (pp *PairPos) Sanitize() error {
 			return fmt.Errorf("GPOS: invalid PairPos1 sets count (%d > %d)", exp, got)
 		}
 	} else if f2, isFormat2 := pp.Data.(PairPosData2); isFormat2 {
-		if exp, got := f2.ClassDef1.Extent(), int(f2.class1Count); exp != got {
-			return fmt.Errorf("GPOS: invalid PairPos2 class1 count (%d != %d)", exp, got)
+		// the class counts may exceed the classes actually used by the class definitions :
+		// only reject class definitions refering to classes outside the record array
+		if exp, got := f2.ClassDef1.Extent(), int(f2.class1Count); exp > got {
+			return fmt.Errorf("GPOS: invalid PairPos2 class1 count (%d > %d)", exp, got)
 		}
-		if exp, got := f2.ClassDef2.Extent(), int(f2.class2Count); exp != got {
-			return fmt.Errorf("GPOS: invalid PairPos2 class2 count (%d != %d)", exp, got)
+		if exp, got := f2.ClassDef2.Extent(), int(f2.class2Count); exp > got {
+			return fmt.Errorf("GPOS: invalid PairPos2 class2 count (%d > %d)", exp, got)
 		}
 	}
 	return nil
